@@ -283,14 +283,44 @@ def r_deriv_measures(repo, rep, R='R7.5'):
               % (sorted(hw), sorted(rw), sorted(hc), sorted(rc_)))
 
 
+def r_category_spelling(repo, rep, R='R7.4'):
+    """encoders that spell categories in their own syntax keep every non-empty feature: the feature is omitted only when
+    its text is empty (otherwise two different categories get one spelling)."""
+    pm = repo.module('depccg/printer/prolog.py')
+    fn = pm.get('_prolog_category_string.rec')
+    p = fn.args.args[0].arg
+    w = '%s:%s _prolog_category_string.rec' % (pm.rel, fn.lineno)
+    feat = ('call', N('str'), (A(N(p), 'feature'),), ())
+    empty_tests = {show(('cmp', '==', feat, C(''))), show(('cmp', '==', C(''), feat)), show(('unop', 'not', feat)),
+                   show(('cmp', '==', ('call', N('len'), (feat,), ()), C(0)))}
+    base_only = with_feat = None
+    for st, o in SymExec(fn).run():
+        if o != 'return' or not any(c == A(N(p), 'is_atomic') and pol for c, pol, _ in st.conds):
+            continue
+        last = st.conds[-1]
+        if st.ret is not None and st.ret[0] == 'fstr' and A(N(p), 'feature') in set(subterms(st.ret)):
+            with_feat = True
+        elif st.ret is not None and st.ret[0] != 'const':
+            # the path returning the bare base
+            base_only = show(last[0]) in empty_tests and last[1]
+            detail = show(last[0])
+    rep.check(bool(base_only) and bool(with_feat), R, w, 'prolog:category-spelling',
+              'the Prolog spelling omits the feature only when its text is empty',
+              'the Prolog spelling drops a feature under the test %s: distinct categories (e.g. NP[nb] and NP) are spelled alike' % locals().get('detail'))
+
+
 def check(repo, rep, tier):
     rep.rule('R7.1', 'conll head assignment from head flags')
     rep.rule('R7.2', 'head flag polarity of the AUTO-family encoders')
     rep.rule('R7.3', 'sentence / n-best numbering of every loop nest over results')
     rep.rule('R7.4', 'traversal completeness of every encoder')
+    rep.rule('R7.6', 'Jigg span ids / leaf positions / child lists (shared with C15 R15.3): offsets and references restart per tree, ids per sentence')
     rep.rule('R7.5', 'sibling width computations of the deriv layout use the same measure')
     r_conll_heads(repo, rep)
     r_polarity(repo, rep)
     r_numbering(repo, rep)
     r_traversal(repo, rep)
     r_deriv_measures(repo, rep)
+    r_category_spelling(repo, rep)
+    from .c15 import r_ids
+    r_ids(repo, rep, 'R7.6')
